@@ -135,7 +135,31 @@ func (a *adapter) zTx(z string, sc *scenario, bt uint64, to common.Address) *typ
 	return nil
 }
 
-var zClasses = []string{"z_ok", "z_exp_now", "z_exp_max", "z_box_ok", "z_box_sub_exp_max", "z_expired", "z_too_far", "z_chain", "z_toname_long",
+// zTxs: the transactions class z appends to T's own (most classes: one).
+func (a *adapter) zTxs(z string, sc *scenario, bt uint64, to common.Address) types.Transactions {
+	ok := bt + 1000
+	tag := fmt.Sprintf("%s-%d", z, sc.T.Height()*10+uint32(sc.right))
+	t := func(i int64) *types.Transaction { return a.mkTx(to, 30+i, ok, node.ChainID, "", fmt.Sprintf("%s-t%d", tag, i)) }
+	switch z {
+	case "z_two_boxes_ok":
+		return types.Transactions{a.mkBox(ok, tag+"b1", t(1)), a.mkBox(ok, tag+"b2", t(2))}
+	case "z_box_then_sub":
+		x := t(1)
+		return types.Transactions{a.mkBox(ok, tag+"b1", x, t(2)), x}
+	case "z_sub_then_box":
+		x := t(1)
+		return types.Transactions{x, a.mkBox(ok, tag+"b1", t(2), x)}
+	case "z_two_boxes_share":
+		x := t(1)
+		return types.Transactions{a.mkBox(ok, tag+"b1", x, t(2)), a.mkBox(ok, tag+"b2", t(3), x)}
+	case "z_box_sub_twice":
+		x := t(1)
+		return types.Transactions{a.mkBox(ok, tag+"b1", x, x)}
+	}
+	return types.Transactions{a.zTx(z, sc, bt, to)}
+}
+
+var zClasses = []string{"z_two_boxes_ok", "z_box_then_sub", "z_sub_then_box", "z_two_boxes_share", "z_box_sub_twice","z_ok", "z_exp_now", "z_exp_max", "z_box_ok", "z_box_sub_exp_max", "z_expired", "z_too_far", "z_chain", "z_toname_long",
 	"z_toname_chars", "z_message_long", "z_box_sub_expired", "z_box_sub_too_far", "z_box_sub_chain", "z_box_in_box", "z_replay_anc",
 	"z_box_sub_replay_anc", "z_box_sub_replay_T", "z_box_sub_before_box"}
 
@@ -188,10 +212,10 @@ func (a *adapter) init() {
 		// family "tx": T with a third transaction Z, executed and sealed by the real assembler
 		sc.x = a.x
 		for _, z := range zClasses {
-			zt := a.zTx(z, sc, uint64(T.Time()), r2)
-			all := append(append(types.Transactions{}, txs...), zt)
+			zt := a.zTxs(z, sc, uint64(T.Time()), r2)
+			all := append(append(types.Transactions{}, txs...), zt...)
 			b, inv, err := a.builder.BuildWith(parent, right, 0, all, "T", nil, false)
-			if err != nil || len(inv) != 0 || len(b.Txs) != 3 {
+			if err != nil || len(inv) != 0 || len(b.Txs) != len(all) {
 				engine.Failf("scenario %d: the assembler does not package class %s: err=%v discarded=%d", id, z, err, len(inv))
 			}
 			sc.rebuilt[z] = b
